@@ -153,6 +153,44 @@ def _rdms(x, labels=None, n_cond=None, cgrp=None):
     return RDMs(x.copy(), rdm_descriptors=rd, pattern_descriptors=pd)
 
 
+def _state(obj):
+    """everything a caller owns in an argument, as plain nested containers"""
+    if obj is None or isinstance(obj, (int, float, str)):
+        return obj
+    if isinstance(obj, np.ndarray):
+        return np.array(obj)
+    if isinstance(obj, (list, tuple)):
+        return [_state(o) for o in obj]
+    if isinstance(obj, dict):
+        return {str(k): (np.asarray(v).tolist() if not isinstance(v, dict) else _state(v)) for k, v in obj.items()}
+    if hasattr(obj, 'dissimilarities'):         # RDMs
+        return [np.array(obj.dissimilarities), _state(obj.rdm_descriptors), _state(obj.pattern_descriptors),
+                _state(obj.descriptors)]
+    if hasattr(obj, 'rdm_obj'):                 # fixed model
+        return [_state(obj.rdm_obj), np.array(obj.rdm)]
+    return repr(type(obj))
+
+
+class _Unchanged:
+    """with _Unchanged(ctx, sigp, case, rdms=rdms, ceil_set=...): <library call>  -- every caller-owned
+    argument must be bit-identical afterwards (signature <sigp>|modifies-argument:<name>)"""
+
+    def __init__(self, ctx, sigp, case, **args):
+        self.ctx, self.sigp, self.case, self.args = ctx, sigp, case, args
+
+    def __enter__(self):
+        self.before = {k: fingerprint(_state(v)) for k, v in self.args.items()}
+        return self
+
+    def __exit__(self, et, ev, tb):
+        if et is None:
+            for k, v in self.args.items():
+                if fingerprint(_state(v)) != self.before[k]:
+                    self.ctx.fail('%s|modifies-argument:%s' % (self.sigp, k), self.case,
+                                  'the caller-owned argument %r is not bit-identical after the call' % k)
+        return False
+
+
 def _group_class(labels, n_rdm):
     if labels is None or len(set(labels)) == n_rdm:
         return 'singleton'
@@ -233,9 +271,19 @@ def shards(tier, seed):
                     for c in range(parts):
                         out.append({'kind': 'CV', 'gen': gen, 'n_rdm': n_rdm, 'n_cond': n_cond,
                                     'key': key, 'style': style, 'chunk': [c, parts]})
+    # KF: sets_k_fold with enough rdm groups for every remainder n_groups mod k_rdm, each fold judged
+    for k_rdm in (2, 3, 4):
+        for key, style in cvfills:
+            out.append({'kind': 'KF', 'k_rdm': k_rdm, 'key': key, 'style': style})
+    # SEQ: two noise ceilings in a row on ONE RDMs object, every ordered pair of methods
+    for op in SEQ_OPS:
+        for n_rdm in (2, 3, 4):
+            out.append({'kind': 'SEQ', 'op': op, 'n_rdm': n_rdm})
     return out
 
 
+KF_GROUPS = {2: [4, 5], 3: [5, 6, 7, 8, 9], 4: [9, 10, 11, 12]}     # every remainder 0..k-1
+SEQ_OPS = ['boot_noise_ceiling', 'cv_noise_ceiling', 'eval_fixed', 'crossval']
 A6_MASKS = list(combi.masks(6, 2))     # () + 6 + 15 = 22
 
 
@@ -304,8 +352,58 @@ def run_shard(shard, ctx):
         _shard_b(shard, ctx)
     elif kind == 'CV':
         _shard_cv(shard, ctx)
+    elif kind == 'KF':
+        _shard_kf(shard, ctx)
+    elif kind == 'SEQ':
+        _shard_seq(shard, ctx)
     else:
         raise ValueError(kind)
+
+
+def _shard_kf(shard, ctx):
+    k_rdm = shard['k_rdm']
+    thorough = ctx.tier == 'thorough'
+    for n_groups in KF_GROUPS[k_rdm]:
+        # every group one RDM (descending names); and the first two groups with two RDMs each, interleaved
+        variants = [[10 + n_groups - 1 - g for g in range(n_groups)]]
+        doubled = [10 + n_groups - 1 - g for g in range(n_groups)]
+        doubled[2:2] = [doubled[1]]
+        doubled.append(doubled[0])
+        variants.append(doubled)
+        for labels in variants:
+            for k_pattern in (1, 2):
+                n_cond = 4 if k_pattern == 1 else 6
+                fill = {'n_rdm': len(labels), 'L': n_cond * (n_cond - 1) // 2, 'key': shard['key'],
+                        'style': shard['style']}
+                for m in PLAIN:
+                    case = {'kind': 'cv', 'gen': 'k_fold', 'fill': fill, 'n_cond': n_cond, 'mask': [],
+                            'labels': labels, 'params': {'k_rdm': k_rdm, 'k_pattern': k_pattern},
+                            'random': False, 'method': m, 'per_fold': True}
+                    _cv_exec(case, Env([]), ctx)
+                    rotating = m == PLAIN[(n_groups + k_pattern) % 3]
+                    if rotating and labels is variants[0]:
+                        _cv_exec(dict(case, via='crossval', per_fold=False), Env([]), ctx)
+                        if n_groups % k_rdm == k_rdm - 1 or thorough:
+                            # shuffled group order: every draw with <= 1 non-default answer
+                            rc = dict(case, random=True)
+                            stats = Stats()
+                            for _env, _ in explore(lambda env: _cv_exec(rc, env, ctx), bound=1,
+                                                   max_exec=5000, stats=stats):
+                                pass
+                            if stats.capped:
+                                ctx.count('cap_hit')
+
+
+def _shard_seq(shard, ctx):
+    thorough = ctx.tier == 'thorough'
+    n_rdm = shard['n_rdm']
+    for n_cond in (3, 4):
+        for key, style in ([(0, 0), (0, 1)] if not thorough else [(0, 0), (0, 1), (0, 2), (1, 0)]):
+            fill = {'n_rdm': n_rdm, 'L': n_cond * (n_cond - 1) // 2, 'key': key, 'style': style}
+            for first in ALL:
+                for second in ALL:
+                    run_case({'kind': 'seq', 'op': shard['op'], 'fill': fill, 'n_cond': n_cond,
+                              'first': first, 'second': second}, ctx)
 
 
 def _shard_b(shard, ctx):
@@ -363,6 +461,8 @@ def run_case(case, ctx):
         _case_leak(case, ctx)
     elif kind == 'cv':
         _cv_exec(case, Env(case.get('choices', [])), ctx)
+    elif kind == 'seq':
+        _case_seq(case, ctx)
     else:
         raise ValueError(kind)
 
@@ -410,7 +510,8 @@ def _case_boot(case, ctx):
     with ctx.guard(sigp, case):
         rdms = _rdms(_masked(full, mask), labels)
         desc = 'index' if labels is None else 'grp'
-        lo, up = boot_noise_ceiling(rdms, method=method, rdm_descriptor=desc)
+        with _Unchanged(ctx, 'boot_noise_ceiling|method=%s' % method, case, rdms=rdms):
+            lo, up = boot_noise_ceiling(rdms, method=method, rdm_descriptor=desc)
         lo, up = float(lo), float(up)
         ctx.case(case)
         ctx.outcome((round(lo, 9), round(up, 9)))
@@ -463,7 +564,9 @@ def _candidates(case, ctx, rdms, full, stack, mask, method, up, sigp):
     add(np.array(stack), 'data-rdm')
     ref_p = R.pooled(method, stack)
     add(ref_p, 'ref-pooled')
-    lib_p = np.asarray(pool_rdm(rdms, method=method).get_vectors(), dtype=float)[0][present]
+    with _Unchanged(ctx, 'pool_rdm|method=%s' % method, case, rdms=rdms):
+        lib_p = pool_rdm(rdms, method=method)
+    lib_p = np.asarray(lib_p.get_vectors(), dtype=float)[0][present]
     add(lib_p, 'lib-pooled')
     scale = float(np.max(np.abs(lib_p))) or 1.0
     for eps in (1e-3, 0.3):
@@ -544,6 +647,77 @@ def _case_inv(case, ctx):
         if not close(up0, up1, TOL):
             ctx.fail(sigp + '|upper-changed', case, 'upper %.12g -> %.12g when RDM %d -> %g*RDM+%g; data=%s' % (
                 up0, up1, case['which'], case['scale'], case['shift'], full.tolist()))
+
+
+def _ceiling_through(op, rdms, method, n_cond, ctx, case):
+    """(lower, upper) of the complete stack (every RDM its own group) through one public entry point"""
+    from rsatoolbox.inference import boot_noise_ceiling, cv_noise_ceiling, eval_fixed, crossval
+    from rsatoolbox.inference.crossvalsets import sets_leave_one_out_rdm
+    sigp = '%s|method=%s' % (op, method)
+    if op == 'boot_noise_ceiling':
+        with _Unchanged(ctx, sigp, case, rdms=rdms):
+            out = boot_noise_ceiling(rdms, method=method)
+    elif op == 'eval_fixed':
+        model = _fixed_model(rdms, n_cond, ctx.seed)
+        with _Unchanged(ctx, sigp, case, data=rdms, models=model):
+            out = eval_fixed(model, rdms, method=method).noise_ceiling
+    else:
+        train_set, test_set, ceil_set = sets_leave_one_out_rdm(rdms, 'index')
+        if op == 'cv_noise_ceiling':
+            with _Unchanged(ctx, sigp, case, rdms=rdms, ceil_set=ceil_set, test_set=test_set):
+                out = cv_noise_ceiling(rdms, ceil_set, test_set, method=method)
+        else:
+            model = _fixed_model(rdms, n_cond, ctx.seed)
+            with _Unchanged(ctx, sigp, case, rdms=rdms, train_set=train_set, test_set=test_set,
+                            ceil_set=ceil_set, models=model):
+                out = crossval(model, rdms, train_set, test_set, ceil_set=ceil_set, method=method).noise_ceiling
+    out = np.asarray(out, dtype=float)
+    if out.shape != (2,):
+        raise AssertionError('noise ceiling of shape %r' % (out.shape,))
+    return float(out[0]), float(out[1])
+
+
+def _fixed_model(rdms, n_cond, seed):
+    from rsatoolbox.model import ModelFixed
+    from rsatoolbox.rdm import RDMs
+    vec = np.round(rng_for(seed, 'c07model', n_cond).uniform(0.2, 3.0, size=n_cond * (n_cond - 1) // 2), 4)
+    pd = {k: list(v) for k, v in rdms.pattern_descriptors.items() if k != 'index'}
+    return ModelFixed('m', RDMs(vec.reshape(1, -1), pattern_descriptors=pd))
+
+
+def _case_seq(case, ctx):
+    """two noise ceilings in a row on ONE RDMs object: the second must be what it is on the original
+    data (reference for the plain measures; the same call on a private fresh copy for all measures)"""
+    op, first, second, n_cond = case['op'], case['first'], case['second'], case['n_cond']
+    full = _data(case, ctx.seed)
+    stack = full.tolist()
+    if not (_defined(first, stack) and _defined(second, stack)):
+        ctx.exclude(UNDEF)
+        return
+    for m in (first, second):
+        base = m if m in PLAIN else ('corr' if 'corr' in m else 'cosine')
+        if R.upper_bound(base, stack) is None or R.lower_bound(base, stack)[0] is None:
+            ctx.exclude('sequence: a pooled RDM is undefined (direction vanishes)')
+            return
+    sigp = 'noise-ceiling-sequence|first=%s,second=%s' % (first, second)
+    with ctx.guard(sigp, case):
+        alone = _ceiling_through(op, _rdms(full, None, n_cond), second, n_cond, ctx, case)
+        shared = _rdms(full, None, n_cond)
+        _ceiling_through(op, shared, first, n_cond, ctx, case)
+        after = _ceiling_through(op, shared, second, n_cond, ctx, case)
+        ctx.case(case)
+        ctx.outcome((round(after[0], 9), round(after[1], 9)))
+        tol = TOL_CG if second in WHITE else TOL
+        bad = not (close(after[0], alone[0], tol) and close(after[1], alone[1], tol))
+        want = None
+        if second in PLAIN:
+            want = (R.lower_bound(second, stack)[0], R.upper_bound(second, stack))
+            bad = bad or not (close(after[0], want[0], TOL) and close(after[1], want[1], TOL))
+        if bad:
+            ctx.fail(sigp + '|depends-on-earlier-call', case,
+                     '%s(method=%s) after %s(method=%s) on the same RDMs object gives (lower, upper) = %r; on a fresh '
+                     'copy of the data %r; reference %r; data=%s' % (op, second, op, first, after, alone, want,
+                                                                     full.tolist()))
 
 
 @contextlib.contextmanager
@@ -763,14 +937,11 @@ def _cv_params(gen, n_groups, n_cond, thorough=True):
 def _crossval(case, ctx, rdms, train_set, test_set, ceil_set, method, pdesc):
     """Result.noise_ceiling of the real crossval() for one fixed model on the given sets"""
     from rsatoolbox.inference import crossval
-    from rsatoolbox.model import ModelFixed
-    from rsatoolbox.rdm import RDMs
-    n_cond = case['n_cond']
-    vec = np.round(rng_for(ctx.seed, 'c07model', n_cond).uniform(0.2, 3.0, size=n_cond * (n_cond - 1) // 2), 4)
-    pd = {k: list(v) for k, v in rdms.pattern_descriptors.items() if k != 'index'}
-    model = ModelFixed('m', RDMs(vec.reshape(1, -1), pattern_descriptors=pd))
-    res = crossval(model, rdms, train_set, test_set, ceil_set=ceil_set, method=method,
-                   pattern_descriptor=pdesc)
+    model = _fixed_model(rdms, case['n_cond'], ctx.seed)
+    with _Unchanged(ctx, 'crossval|method=%s' % method, case, rdms=rdms, train_set=train_set,
+                    test_set=test_set, ceil_set=ceil_set, models=model):
+        res = crossval(model, rdms, train_set, test_set, ceil_set=ceil_set, method=method,
+                       pattern_descriptor=pdesc)
     return res.noise_ceiling
 
 
@@ -821,6 +992,26 @@ def _cv_exec(case, env, ctx):
             folds.append(([int(r) for r in tr[0].rdm_descriptors['rid']],
                           [int(r) for r in te[0].rdm_descriptors['rid']],
                           [int(c) for c in te[0].pattern_descriptors['cid']]))
+        if ceil_set is not None:
+            # RDM-level cross-validation: no rdm group of a fold's test set may be in its training /
+            # ceiling set, and the reference prediction uses the REMAINING groups only
+            grp_of = dict(enumerate(labels))
+            everyone = set(range(n_rdm))
+            ref_folds = []
+            for i, (tr, te, conds) in enumerate(folds):
+                if set(te) == everyone:     # no cross-validation over RDMs in this fold
+                    ref_folds.append((sorted(everyone), te, conds))
+                    continue
+                ce = [int(r) for r in ceil_set[i][0].rdm_descriptors['rid']]
+                tg = set(grp_of[r] for r in te)
+                for name, ids in (('training', tr), ('ceiling', ce)):
+                    both = sorted(str(g) for g in tg & set(grp_of[r] for r in ids))
+                    if both:
+                        ctx.fail('sets|gen=%s|test-group-in-%s-set' % (gen, name), done,
+                                 'fold %d: rdm groups %s are in the test set (RDMs %s) and in the %s set (RDMs %s); '
+                                 'labels=%s params=%s' % (i, both, te, name, ids, labels, params))
+                ref_folds.append((sorted(r for r in everyone if grp_of[r] not in tg), te, conds))
+            folds = ref_folds
         via = 'crossval' if (ceil_set is None or case.get('via') == 'crossval') else 'direct'
         if via == 'crossval':
             sigp = 'crossval|gen=%s,method=%s,ceil_set=%s' % (gen, method, 'none' if ceil_set is None else 'given')
@@ -883,7 +1074,9 @@ def _cv_exec(case, env, ctx):
                 return
             lo, up = nc
         else:
-            lo, up = cv_noise_ceiling(rdms, ceil_set, test_set, method=method, pattern_descriptor=pdesc)
+            with _Unchanged(ctx, 'cv_noise_ceiling|method=%s' % method, done, rdms=rdms, ceil_set=ceil_set,
+                            test_set=test_set):
+                lo, up = cv_noise_ceiling(rdms, ceil_set, test_set, method=method, pattern_descriptor=pdesc)
         lo, up = float(lo), float(up)
         ctx.case(done)
         ctx.outcome((round(lo, 9), round(up, 9)))
@@ -891,9 +1084,21 @@ def _cv_exec(case, env, ctx):
             ctx.dev('cv-lower/' + method, reldev(lo, want))
             if not close(lo, want, TOL):
                 ctx.fail(sigp + '|lower!=train-pool-at-test-conditions', done,
-                         'lower bound %.12g, mean over folds of sim(test RDMs, pooled training RDMs at the test '
-                         'conditions) %.12g; data=%s labels=%s folds(train,test,conds)=%s' % (
+                         'lower bound %.12g, mean over folds of sim(test RDMs, pooled RDM of the remaining rdm groups '
+                         'at the test conditions) %.12g; data=%s labels=%s folds(remaining,test,conds)=%s' % (
                              lo, want, full.tolist(), labels, folds))
+            if case.get('per_fold') and via == 'direct':
+                # every fold on its own: cv_noise_ceiling on the one-fold lists
+                for i in range(len(folds)):
+                    lo_i, _ = cv_noise_ceiling(rdms, [ceil_set[i]], [test_set[i]], method=method,
+                                               pattern_descriptor=pdesc)
+                    ctx.case(dict(done, fold=i))
+                    if not close(lo_i, info[i], TOL):
+                        ctx.fail(sigp + '|fold-lower!=remaining-groups-pool-at-test-conditions', dict(done, fold=i),
+                                 'fold %d: lower bound %.12g, sim(test RDMs %s, pooled RDM of the remaining RDMs %s at '
+                                 'conditions %s) %.12g; labels=%s data=%s' % (
+                                     i, lo_i, folds[i][1], folds[i][0], folds[i][2], info[i], labels, full.tolist()))
+                        break
         if gen == 'loo_rdm' and len(set(labels)) == n_rdm and method in ORDER:
             base = method if method in PLAIN else ('corr' if 'corr' in method else 'cosine')
             if R.upper_bound(base, R.delete_entries(full.tolist(), mask)) is None:
